@@ -5,7 +5,7 @@ From Verif Require Import lib.Wire c03.Int64 c03.Model c03.Spec c03.Witness
      c03.Proofs_Int64 c03.Proofs_Base c03.Proofs_Limiter c03.Proofs_Reach c03.Proofs_Link
      c03.Proofs_OpsMem c03.Proofs_Hist c03.Proofs_Mon c03.Proofs_Link2 c03.Proofs_Transfer c03.Proofs_OpsRepar
      c03.Proofs_SetPeer c03.Proofs_Hist2 c03.Proofs_Mon2 c03.Proofs_Keys c03.Proofs_Refs c03.Proofs_RefInv c03.Proofs_GC
-     c03.Proofs_Full.
+     c03.Proofs_Prio c03.Proofs_Full.
 Import ListNotations.
 Local Open Scope Z_scope.
 
@@ -211,12 +211,16 @@ Theorem c03_release_all_zero : forall c ops t, disciplined c ops ->
 Proof. exact release_all_zero_full. Qed.
 Print Assumptions c03_release_all_zero.
 
-(* THE monitor that is run on the implementation's traces (its core: answer
-   legality, choice among the candidate successors, usage == sum of holders,
-   signs, limits) accepts every trace of the model *)
+(* THE monitor that is run on the implementation's traces accepts every trace of
+   the model: answer legality, choice among the candidate successors, usage ==
+   sum of holders, signs, limits, and the priority threshold after every accepted
+   ReserveMemory (ck_prio).  [ck_proved]: the two remaining switches - the
+   justification of resource-limit refusals (ck_just) and the per-subnet cap
+   against the open connections of the history (ck_cap) - are off; they are
+   covered by the correspondence only *)
 Theorem c03_trace_holds : forall c ops, disciplined c ops ->
-  mon_run_gen false c astate0 [] 0 (model_trace c (init_state c) ops) = [].
-Proof. exact monitor_accepts_full. Qed.
+  mon_run_gen (mkChecks true false false) c astate0 [] 0 (model_trace c (init_state c) ops) = [].
+Proof. exact monitor_accepts_prio. Qed.
 Print Assumptions c03_trace_holds.
 
 (* the hypothesis is satisfiable: a history through every operation incl. gc with
